@@ -162,6 +162,12 @@ func (c c14) Execute(p *core.Plan) *core.Result {
 		}
 	}
 	verdict("honest", pub, msg, ssig, -1)
+	// the same key is also used for key blinding between verifications
+	if bp, err := ed25519.BlindPublicKeyWithContext(pub, r.Bytes(32), nil); err == nil && len(bp) == 32 {
+		ed25519.UnblindPublicKeyWithContext(pub, r.Bytes(32), []byte("ctx"))
+		ed25519.BlindKeySign(fpriv, msg, r.Bytes(32))
+		verdict("honest", pub, msg, ssig, -1)
+	}
 	S := leInt(ssig[32:])
 	for si, st := range p.Steps {
 		switch st.Op {
@@ -444,6 +450,21 @@ func (c c15) Execute(p *core.Plan) *core.Result {
 		viol := func(sig, detail string) {
 			res.Violate("C15/"+sig, fmt.Sprintf("context %d bytes, message %d bytes, blind class %d: %s", len(ctx), len(msg), st.Arg(6, 0), detail), si)
 		}
+		// the surrounding application also verifies ordinary signatures under the original key,
+		// before and after the blinding calls, and sometimes meets a key that is not on the curve
+		honestSig := stded.Sign(stded.NewKeyFromSeed(seed), msg)
+		if !ed25519.Verify(pub, msg, honestSig) {
+			viol("verify-before-blinding", "an ordinary signature does not verify under the original key before the blinding calls")
+		}
+		if st.Arg(5, 0)%4 == 1 {
+			bad := bytes.Repeat([]byte{0xff}, 32)
+			bad[0], bad[31] = 0x02, 0x7f // y = 2 + 2^8*... : not a curve point for most draws; error expected, nothing else
+			_, e1 := ed25519.BlindPublicKeyWithContext(bad, blind1, ctx)
+			_, e2 := ed25519.UnblindPublicKeyWithContext(bad, blind1, ctx)
+			if e1 != nil || e2 != nil {
+				res.Probe("a blinding call refused a key that is not on the curve, then the pipeline continued")
+			}
+		}
 		bp, err := ed25519.BlindPublicKeyWithContext(pub, blind1, ctx)
 		if err != nil {
 			viol("blind-error", err.Error())
@@ -511,6 +532,9 @@ func (c c15) Execute(p *core.Plan) *core.Result {
 		}
 		if stded.Verify(stded.PublicKey(append([]byte(nil), pub...)), msg, sig1) {
 			viol("sig-accepted-under-original-key", "the blinded-key signature verifies under the original key")
+		}
+		if !ed25519.Verify(pub, msg, honestSig) || !stded.Verify(stded.PublicKey(append([]byte(nil), pub...)), msg, honestSig) {
+			viol("verify-after-blinding", "an ordinary signature no longer verifies under the original key after blinding calls on that key")
 		}
 		// corruption in transit
 		res.Evals++
